@@ -144,7 +144,8 @@ target(C + "_abort_write_group",
                 "no_pack_left_open": lambda c: And(c.self._new_pack.is_none, Len(c.self._resumed_packs) == 0)},
        raises={"Exception": {"nothing_published": lambda c: And(Not(c.g.published), c.self._names == c.old.self._names),
                              "new_pack_forgotten": lambda c: c.self._new_pack.is_none}},
-       canary=lambda c: Not(c.self._new_pack.is_none))
+       canary=lambda c: Not(c.self._new_pack.is_none),
+       equivalent_mutants={r"_remove_pack_indices|drop:Expr.*\| stack\.callback\($": "in-memory index bookkeeping (callbacks that detach indices)"})
 
 assumed("self._remove_resumed_pack_indices", result=NONE, modifies=["self._resumed_packs"], raises={"Exception": "unchanged"})
 target(C + "_suspend_write_group", locals=dict(tokens=Seq(STR)),
